@@ -403,6 +403,11 @@ def run_case(st: Stats, case):
             ok = (set(want) <= set(g)) if name in UNORDERED else ((g[: len(want)] == want) if name == "exclude_dir" else g == want)
             if not ok:
                 st.violation("wrong-precedence", "cli/" + layer, feats, inp, g, want)
+            # what FORD derives from the options follows the final values: the output directory is never read as source
+            if "config" not in layer and got.get("output_dir") not in (got.get("exclude_dir") or []):
+                ok = False
+                st.violation("derived-setting-stale", "cli/" + layer, dict(feats, field="exclude_dir"), inp, dict(output_dir=got.get("output_dir"), exclude_dir=got.get("exclude_dir")),
+                             "exclude_dir contains the output directory in force")
             st.stratum("cli/" + layer, 0 if ok else 1)
     elif kind == "unknown":
         _, fmt, key = case
